@@ -46,9 +46,10 @@ class Contract:
             q = Q("goal"); pre = self.requires(ctx, q)
             interp.obligations.append((f"call.{self.target}.pre", list(interp.pc) + q.hyps, toz3(pre), {"site": getattr(interp.stack[-1].func, 'qualname', '?') if interp.stack else '?'}))
             if concrete_bool(z3.simplify(toz3(pre))) is False: raise PreFailed(self.target)
+        if self.returns is None and self.effects is None: raise Unsupported(f"contract {self.target} has no functional 'returns'")
+        ret = self.returns(ctx) if self.returns is not None else None      # result is a function of the PRE-state
         if self.effects is not None: self.effects(interp, ctx)
-        if self.returns is not None: return self.returns(ctx)
-        raise Unsupported(f"contract {self.target} has no functional 'returns'")
+        return ret
 
 REGISTRY = {}
 def contract(target, **kw):
